@@ -316,6 +316,12 @@ impl<LeafData: IndexedData> Qbvh<LeafData> {
 }
 
 impl<LeafData: IndexedData> Qbvh<LeafData> {
+    /// Verification hook: the dirty-node work list and the node free list (internal bookkeeping).
+    #[cfg(dimforge_parry_verif)]
+    pub fn verif_internals(&self) -> (&[u32], &[u32]) {
+        (&self.dirty_nodes, &self.free_list)
+    }
+
     /// The Aabb of the root of this tree.
     pub fn root_aabb(&self) -> &Aabb {
         &self.root_aabb
